@@ -630,6 +630,7 @@ def run(ctx):
     r9.need(1)
 
     auto_flag_discipline(ctx)
+    one_source_text(ctx)
 
 
 def auto_flag_discipline(ctx):
@@ -642,6 +643,23 @@ def auto_flag_discipline(ctx):
     fam = [b for b in mir.bodies if re.search(r'::get_complete_type(::\{closure#\d+\})*$', b.nid)]
     if not fam:
         r10.fail('anchor/get_complete_type', 'src/parser.rs', 'get_complete_type not found')
+    # ... and the helpers of the same file it calls (a recursive call may sit in a helper `component_type(..)`): everything reachable
+    # from get_complete_type inside src/parser.rs, closures included
+    seen = {b.id for b in fam}
+    todo = list(fam)
+    while todo:
+        x = todo.pop()
+        for bb, t in x.calls():
+            cal = strip_generics(t.get('callee') or '')
+            if cal.endswith('::get_complete_type'):
+                continue
+            for y in mir.bodies:
+                if y.id in seen or y.file != 'src/parser.rs':
+                    continue
+                if y.nid == cal or y.nid.startswith(cal + '::{closure'):
+                    seen.add(y.id)
+                    fam.append(y)
+                    todo.append(y)
     for b in fam:
         for bb, t in b.calls():
             if not strip_generics(t.get('callee') or '').endswith('::get_complete_type') or len(t['args']) < 6:
@@ -651,4 +669,71 @@ def auto_flag_discipline(ctx):
             r10.inst({'recursive_call': mirq.site(b, bb), 'auto_allowed': a['const'].get('s') if 'const' in a else 'not a constant'}, ok=ok, kind=(b.nid, bb))
             if not ok:
                 r10.fail('get_complete_type/auto-inherited', mirq.site(b, bb), 'a component type is parsed with the caller\'s auto permission: `$` nested inside a type (foo{Optional<$>}) is accepted, reaches overload binding, and rendering it in an error message hits unreachable!()')
-    r10.need(3)
+    r10.need(2)
+
+
+def one_source_text(ctx):
+    """R12.11: positions in compilation errors are byte offsets into the text that was parsed.  feed_file therefore renders errors
+    (resolve_with_input) against the very text it handed to the parser: both operands are the parameter itself, reached through
+    reborrows only -- not a trimmed / stripped / re-encoded derivative of it on one side."""
+    mir = ctx.mir
+    r11 = ctx.rule('R12.11', 'errors are rendered against the same source text that was parsed')
+    fam = [b for b in mir.bodies if re.search(r'RootCompilationScope(::<[^>]*>)?::feed_file(::\{closure#\d+\})*$', b.nid)]
+    if not fam:
+        r11.fail('anchor/feed_file', 'src/root_compilation_scope.rs', 'feed_file not found')
+        r11.need(2)
+        return
+
+    def text_origin(b, op, depth=8):
+        """('param', n) when the operand is parameter n of feed_file through reborrows / moves / closure captures only;
+        ('derived', callee) when a call produced it"""
+        p = op_place(op)
+        if p is None:
+            return ('const', None)
+        cur = p
+        for _ in range(depth):
+            l = cur['l']
+            if b.kind == 'closure' and l == 1:
+                fs = [e['f'] for e in cur['p'] if isinstance(e, dict) and 'f' in e]
+                for pb, bb, j in mirq.closure_creation_sites(mir, b.id):
+                    ops = pb.blocks[bb]['stmts'][j]['rv'].get('ops') or []
+                    if fs and fs[0] < len(ops):
+                        return text_origin(pb, ops[fs[0]], depth - 1)
+                return ('unknown', None)
+            ds = b.defs().get(l, [])
+            if not ds and 1 <= l <= b.d['argc']:
+                return ('param', l)
+            if len(ds) != 1:
+                return ('unknown', None)
+            kind, bb, idx, x = ds[0]
+            if kind == 'call':
+                return ('derived', strip_generics(x.get('callee') or x.get('decl') or '?'), b.id, bb)
+            rv = x['rv']
+            if rv['k'] in ('ref', 'copyderef'):
+                cur = rv['place']
+            elif rv['k'] in ('use', 'cast') and op_place(rv['op']) is not None:
+                cur = op_place(rv['op'])
+            else:
+                return ('unknown', None)
+        return ('unknown', None)
+    uses = []
+    for b in fam:
+        for bb, t in b.calls():
+            nm = strip_generics(t.get('callee') or t.get('decl') or '')
+            if nm.endswith('Parser>::parse') or nm.endswith('::Parser::parse'):
+                uses.append(('parse', b, bb, text_origin(b, t['args'][-1])))
+            elif nm.endswith('::resolve_with_input'):
+                uses.append(('render', b, bb, text_origin(b, t['args'][-1])))
+    kinds = {u[0] for u in uses}
+    origins = {u[3] for u in uses}
+    same = len(origins) == 1 and next(iter(origins))[0] in ('param', 'derived')
+    for what, b, bb, og in uses:
+        r11.inst({'use': what, 'site': mirq.site(b, bb), 'text': '%s %s' % (og[0], og[1])}, ok=same, kind=(what, b.nid, bb))
+    if not same:
+        odd = [u for u in uses if u[3][0] != 'param'] or uses
+        what, b, bb, og = odd[0]
+        r11.fail('feed_file/%s-on-another-text' % what, mirq.site(b, bb), 'feed_file %ss a text produced by %s while the other side uses %s: byte offsets of errors no longer index the text they are rendered against (a multi-byte character near the error makes the compiler panic on a char boundary)'
+                 % (what, og[1] or 'an unrecognised computation', ', '.join(sorted({'%s %s' % (u[3][0], u[3][1]) for u in uses if u[3] != og})) or 'the same'))
+    if kinds != {'parse', 'render'}:
+        r11.fail('anchor/uses', fam[0].file, 'expected one parse and at least one resolve_with_input in feed_file (found %s)' % sorted(kinds))
+    r11.need(2)
